@@ -1,4 +1,8 @@
 (* Correspondence for C20: what Operator.ground() reports for an action call --
+   (round 3: collections are compared as MULTISETS; the model side is Model.GroundSets.iter_action, i.e. the report of
+   Model.GroundTyped with the library's Python sets applied; the spec side has a lower bound -- Spec.SubstSet: members of one
+   connective / one effect group with the same TYPED form count once -- and an upper bound -- one reported item per schema
+   occurrence)
    iterated grounded precondition literals (untyped and typed text) and numeric conditions, the grounded (in)equality
    pairs, each effect group's antecedent / add and delete literals / numeric effects, the typed action call text --
    compared (a) with the model (Model.GroundTyped.report_action, texts included) and
@@ -6,7 +10,8 @@
                 (Spec.Grammar + Spec.Subst), structurally (polarity, name, arguments, types; expressions). *)
 From Coq Require Import List Ascii String Bool Arith PrimFloat.
 From Verif Require Import Base.Result Base.Str Base.Sexp Base.PyDict Base.Float
-  Model.Types Model.Domain Model.Exec Model.GroundTyped Spec.Pddl Spec.Grammar Spec.Subst Corr.Common Corr.Core.
+  Model.Types Model.Domain Model.Exec Model.GroundTyped Model.GroundSets Spec.Pddl Spec.Grammar Spec.Subst Spec.SubstSet
+  Corr.Common Corr.Core.
 Import ListNotations.
 Open Scope string_scope.
 Open Scope list_scope.
@@ -59,9 +64,30 @@ Definition cross_eq {A B} (r : A -> B -> bool) (a : list A) (b : list B) : bool 
   forallb (fun x => existsb (r x) b) a && forallb (fun y => existsb (fun x => r x y) a) b.
 
 
+(* multisets: match every x with a y of its own (r is an equivalence up to representation, so the first match will do);
+   [Some rest] = the ys nobody claimed *)
+Fixpoint take_first {Y} (p : Y -> bool) (ys : list Y) : option (list Y) :=
+  match ys with
+  | [] => None
+  | y :: r => if p y then Some r else match take_first p r with Some r' => Some (y :: r') | None => None end
+  end.
+Fixpoint match_all {X Y} (r : X -> Y -> bool) (xs : list X) (ys : list Y) : option (list Y) :=
+  match xs with
+  | [] => Some ys
+  | x :: xr => match take_first (r x) ys with Some ys' => match_all r xr ys' | None => None end
+  end.
+Definition msub {X Y} (r : X -> Y -> bool) (xs : list X) (ys : list Y) : bool :=          (* xs <= ys *)
+  match match_all r xs ys with Some _ => true | None => false end.
+Definition mseq {X Y} (r : X -> Y -> bool) (xs : list X) (ys : list Y) : bool :=          (* xs = ys *)
+  match match_all r xs ys with Some [] => true | _ => false end.
+Definition flip2 {X Y} (r : X -> Y -> bool) : Y -> X -> bool := fun y x => r x y.
+(* lo <= ys <= hi *)
+Definition mbetween {X Y} (r : X -> Y -> bool) (lo hi : list X) (ys : list Y) : bool :=
+  msub r lo ys && msub (flip2 r) ys hi.
+
 Definition cond_agree (dom : mdomain) (items : list ritem) (eqs : list eqpair) (o : ocond) : bool :=
-  cross_eq (rlit_olit dom) (items_lits items) (oc_lits o) &&
-  set_eq gtree_eqb (items_nums items) (oc_nums o) &&
+  mseq (rlit_olit dom) (items_lits items) (oc_lits o) &&
+  mseq gtree_eqb (items_nums items) (oc_nums o) &&
   set_eq eqpair_eqb eqs (oc_eqs o).
 
 Definition group_agree (dom : mdomain) (m : rgroup) (o : ogroup) : bool :=
@@ -70,7 +96,7 @@ Definition group_agree (dom : mdomain) (m : rgroup) (o : ogroup) : bool :=
   | Some (its, eqs), Some oc => cond_agree dom its eqs oc
   | _, _ => false
   end &&
-  cross_eq (rlit_olit dom) (rg_disc m) (og_disc o) && set_eq gtree_eqb (rg_num m) (og_num o).
+  mseq (rlit_olit dom) (rg_disc m) (og_disc o) && mseq gtree_eqb (rg_num m) (og_num o).
 
 (* ---------- the spec's expectation ---------- *)
 (* structural form of a literal: polarity, atom, types *)
@@ -125,8 +151,8 @@ Definition num_gtree (s : assignop * atom * nexp) (t : gtree) : bool :=
   end.
 
 Definition cond_ok (consts scope : list (string * string)) (sg : env) (f : form) (o : ocond) : bool :=
-  cross_eq tlit_olit (form_lits consts scope sg f) (oc_lits o) &&
-  cross_eq cmp_gtree (form_cmps sg f) (oc_nums o) &&
+  mbetween tlit_olit (form_lits_min consts scope sg f) (form_lits consts scope sg f) (oc_lits o) &&
+  mseq cmp_gtree (form_cmps sg f) (oc_nums o) &&
   set_eq eqpair_eqb (form_eqs sg f) (oc_eqs o).
 
 Definition group_ok (consts scope : list (string * string)) (sg : env) (ante : option form) (ps : list prim)
@@ -136,8 +162,8 @@ Definition group_ok (consts scope : list (string * string)) (sg : env) (ante : o
   | Some f, Some oc => cond_ok consts scope sg f oc
   | _, _ => false
   end &&
-  cross_eq tlit_olit (prim_lits consts scope sg ps) (og_disc o) &&
-  cross_eq num_gtree (prim_nums sg ps) (og_num o).
+  mbetween tlit_olit (prim_lits_min consts scope sg ps) (prim_lits consts scope sg ps) (og_disc o) &&
+  mseq num_gtree (prim_nums sg ps) (og_num o).
 
 (* the groups Operator.ground() builds: the unconditional one and one per 'when' (forall-when effects are grounded
    only when they are applied) *)
@@ -174,7 +200,7 @@ Definition known_groups (a : action) (sg : env) : bool :=
 Definition model_report (d : mdomain) (p : gprobe) : result (report * maction) :=
   match dget (d_actions d) (g_action p) with
   | None => Err EKey
-  | Some a => do r <- report_action d a (g_args p); Ok (r, a)
+  | Some a => do r <- iter_action d a (g_args p); Ok (r, a)
   end.
 
 Definition probe_verdicts (w : world) (p : gprobe) : list verdict :=
@@ -197,7 +223,7 @@ Definition probe_verdicts (w : world) (p : gprobe) : list verdict :=
                        | Ok d, Ok (r, _) => cond_agree d (rp_items r) (rp_eqs r) (ob_pre o)
                        | _, _ => false end in
       let agree_grp := match md, mr with
-                       | Ok d, Ok (r, _) => cross_eq (group_agree d) (rp_groups r) (ob_groups o)
+                       | Ok d, Ok (r, _) => mseq (group_agree d) (rp_groups r) (ob_groups o)
                        | _, _ => false end in
       let agree_call := match md, mr with
                         | Ok d, Ok (_, a) =>
@@ -212,7 +238,8 @@ Definition probe_verdicts (w : world) (p : gprobe) : list verdict :=
                     | None => false end in
       let ok_grp := match sa with
                     | Some a => cross_eq (fun g og => group_ok consts (a_params a) sg (fst g) (snd g) og)
-                                         (spec_groups a) (ob_groups o)
+                                         (spec_groups a) (ob_groups o) &&
+                                Nat.eqb (List.length (spec_groups a)) (List.length (ob_groups o))
                     | None => false end in
       let ok_call := match sd, sa with
                      | Some d, Some a =>
